@@ -145,6 +145,11 @@ pub fn watchdog(seconds: u32) {
     if cfg!(miri) {
         return;
     }
+    // replays of explicit cases (minimisation) ask for a shorter fuse
+    let seconds = match std::env::var("DSIM_ALARM").ok().and_then(|v| v.parse::<u32>().ok()) {
+        Some(s) if s > 0 => s.min(seconds),
+        _ => seconds,
+    };
     // SAFETY: plain libc call
     unsafe {
         alarm(seconds);
@@ -341,6 +346,8 @@ pub struct RunOpts {
     pub shadow: bool,
     pub oracles: OracleSet,
     pub want_text: bool,
+    /// steps that embed a comparison oracle of their own (relations in further bases) report through `env.violation`
+    pub cmp_oracle: bool,
 }
 
 pub trait StepHook {
@@ -453,6 +460,7 @@ pub fn run_ops(ops: &[Op], opts: &RunOpts, stats: &mut Stats, hook: &mut dyn Ste
     simalloc::begin_run(opts.cfg, opts.garbage_seed);
     let mut out = Outcome { violation: None, harness_error: None, chain: 0x5EED, steps_done: 0, fallible: Vec::with_capacity(ops.len()), callbacks: Vec::with_capacity(ops.len()), soft: None };
     let mut env = Env::new(opts.want_text);
+    env.cmp_oracle = opts.cmp_oracle;
     simalloc::track(true);
     let mut w = World::new();
     simalloc::track(false);
